@@ -1098,6 +1098,7 @@ fn search_differential_ext(seed: u64, budget: usize, extra_budget: usize, want: 
             always: [vec![], vec![], vec!["X-Amz-Target"], vec!["content-type"]][pick(&mut x, 4)].clone(), ifreq: [vec![], vec!["ETag"], vec!["x-custom"]][pick(&mut x, 3)].clone(),
             prefixes: [vec![], vec![], vec!["x-amz-meta-"], vec!["X-Amz-"]][pick(&mut x, 4)].clone() };
         let mut cfg = cfg;
+        if p2 && pick(&mut x, 16) == 0 { cfg.now = [DateTime::<Utc>::MIN_UTC, DateTime::<Utc>::MAX_UTC, DateTime::<Utc>::MIN_UTC + chrono::Duration::minutes(10), DateTime::<Utc>::MAX_UTC - chrono::Duration::minutes(10)][pick(&mut x, 4)]; }
         if p2 && pick(&mut x, 3) == 0 { cfg.ifreq = [vec!["x-foo"], vec!["X-Bar"], vec!["x-soup"]][pick(&mut x, 3)].clone(); }
         let cfg = cfg;
         let mut r = Req { method: ["GET", "POST", "PUT", "GET", "POST", "DELETE", "patch", "Get", "PROPFIND"][pick(&mut x, 9)], path: paths[pick(&mut x, paths.len())].into(), query: queries[pick(&mut x, queries.len())].into(),
@@ -1122,6 +1123,7 @@ fn search_differential_ext(seed: u64, budget: usize, extra_budget: usize, want: 
         }
         if pick(&mut x, 2) == 0 { r.headers.push(("Content-Type".into(), ctypes[pick(&mut x, ctypes.len())].into())); r.body = bodies[pick(&mut x, bodies.len())].to_vec(); }
         if p2 {
+            if pick(&mut x, 8) == 0 { r.path = ["/a%00b", "/a%0a/b%0D", "/x/%7f", "/%1F/%01", "/a%09b/%20"][pick(&mut x, 5)].into(); }
             if pick(&mut x, 4) == 0 { r.query = ["a=1&X-Amz-Signature=s1&X-Amz-Signature=s2&b=2", "X-Amz-Signature=&a=1", "X-Amz-Signature=s1&x-amz-signature=s2", "b=2&X-Amz-Signature=zz&a=1&X-Amz-Signature=zz"][pick(&mut x, 4)].into(); }
             if pick(&mut x, 4) == 0 { for (k, v) in [&[("x-foo", "")][..], &[("X-Bar", ""), ("x-bar", "")][..], &[("x-soup", " ")][..], &[("x-foo", ""), ("ETag", "")][..]][pick(&mut x, 4)] { r.headers.push((k.to_string(), v.to_string())); } }
             if pick(&mut x, 4) == 0 {
@@ -1134,6 +1136,7 @@ fn search_differential_ext(seed: u64, budget: usize, extra_budget: usize, want: 
         // sign with the reference signer as a client would: over the request the model says the server will canonicalise
         let date_text = dates[pick(&mut x, dates.len())];
         // second phase: sometimes the date travels in a `Date` header (ISO or HTTP-date text) and there is no X-Amz-Date
+        let date_text = if p2 && pick(&mut x, 10) == 0 { ["17000101T000000Z", "23500101T000000Z", "00010101T000000Z", "99991231T235959Z", "16770921T001243Z", "22620411T234716Z"][pick(&mut x, 6)] } else { date_text };
         let (date_header, date_text) = if p2 && pick(&mut x, 4) == 0 {
             ("Date", if pick(&mut x, 2) == 0 { date_text } else { ["Sun, 30 Aug 2015 12:36:00 GMT", "30 Aug 2015 14:36:00 +0200", "Sun, 30 Aug 2015 08:36:00 EDT", "Sun, 30 Aug 2015 12:36:00 +0000"][pick(&mut x, 4)] })
         } else { ("X-Amz-Date", date_text) };
@@ -1175,6 +1178,12 @@ fn search_differential_ext(seed: u64, budget: usize, extra_budget: usize, want: 
             let (k, v) = [("X-Forwarded-Host", "other.example.com"), ("X-Forwarded-For", "10.0.0.1"), ("X-Forwarded-Proto", "http"), ("Forwarded", "host=other.example.com"), ("Via", "1.1 proxy"), ("X-Real-IP", "10.0.0.1"),
                           ("X-Original-Host", "other.example.com"), ("X-HTTP-Method-Override", "DELETE")][pick(&mut x, 8)];
             r.headers.push((k.into(), v.into()));
+        }
+        if p2 && pick(&mut x, 6) == 0 {
+            // a scope term shortened to a prefix of the right one, or emptied (header carrier; the query carrier through its escaped form)
+            let (a, b) = [("/20150830/", "//"), ("/20150830/", "/2015/"), ("/20150830/", "/2015083/"), ("/us-east-1/", "/us-east/"), ("/us-east-1/", "//"), ("/service/", "/serv/"), ("/aws4_request", "/aws4"), ("/aws4_request", "/")][pick(&mut x, 8)];
+            for h in r.headers.iter_mut() { if h.0 == "Authorization" { h.1 = h.1.replacen(a, b, 1); } }
+            r.query = r.query.replacen(&a.replace('/', "%2F"), &b.replace('/', "%2F"), 1);
         }
         if p2 && pick(&mut x, 4) == 0 {
             // an unsigned header that is present but carries an empty (or blank) value
